@@ -1,7 +1,8 @@
 (* C14 — Projections return exactly the requested part of each document,
    unchanged.  Statements about the executable model of mongokit.Project
    (Model/Project.v), for EVERY query matcher `matchf` ($elemMatch calls it);
-   `Project = project_with stub_match` is one instance.  Only `exact`, with
+   `Project = project_with Match` (Model/Match.v) is the instance that is
+   compared with /repo.  Only `exact`, with
    Print Assumptions; non-vacuity Examples at the end.
 
    Domain of the path-level statements.  Projection keys are KEY PATHS
@@ -17,7 +18,8 @@
 From Coq Require Import List ZArith String.
 From Lungo.Model Require Import Access Project.
 From Lungo.Gen Require Import ProjectOps.
-From Lungo.Proofs Require Import KeyPaths KeyPathLaws SliceWindow ProjectProofs GenProject.
+From Lungo.Model Require Match.
+From Lungo.Proofs Require Import KeyPaths KeyPathLaws SliceWindow ProjectProofs GenProject ProjectMatch.
 Import ListNotations.
 Open Scope string_scope.
 Open Scope list_scope.
@@ -96,12 +98,13 @@ Theorem C14_exclusion_total : forall matchf d pr,
 Proof. exact exclusion_total. Qed.
 Print Assumptions C14_exclusion_total.
 
-(* $slice: n  — first n (n >= 0) or last -n (n < 0) elements; the other
-   entries may be any conditions *)
+(* $slice: n  — first n (n >= 0) or last -n (n < 0) elements; n is what
+   projectSliceInt makes of the argument (int64 and double clamped to
+   +-MaxInt32, doubles truncated); the other entries may be any conditions *)
 Theorem C14_slice_spec_n : forall matchf d pre post p x n a r,
   forallb plain_entry pre = true -> forallb plain_entry post = true ->
   kpath_str p = true -> root p <> "_id" ->
-  project_slice_int x = Ok (Some n) -> int64 n ->
+  wf x = true -> project_slice_int x = Some n ->
   Get d p = VArr a -> (len a < two63)%Z ->
   project_with matchf d (pre ++ (p, VDoc [("$slice", x)]) :: post) = Ok r ->
   Get r p = VArr (window_n n a).
@@ -113,13 +116,30 @@ Print Assumptions C14_slice_spec_n.
 Theorem C14_slice_spec_skip_limit : forall matchf d pre post p xs xl s l a r,
   forallb plain_entry pre = true -> forallb plain_entry post = true ->
   kpath_str p = true -> root p <> "_id" ->
-  project_slice_int xs = Ok (Some s) -> project_slice_int xl = Ok (Some l) ->
-  int64 s -> int64 l ->
+  wf xs = true -> wf xl = true ->
+  project_slice_int xs = Some s -> project_slice_int xl = Some l ->
   Get d p = VArr a -> (len a < two63)%Z ->
   project_with matchf d (pre ++ (p, VDoc [("$slice", VArr [xs; xl])]) :: post) = Ok r ->
   (0 <= l)%Z /\ Get r p = VArr (window_skip_limit s l a).
 Proof. exact slice_spec_skip_limit. Qed.
 Print Assumptions C14_slice_spec_skip_limit.
+
+(* $slice never panics and is always modelled: for EVERY argument value the
+   operator reports an error or succeeds (used by C20) *)
+Theorem C14_slice_total : forall st d o p v,
+  wf v = true ->
+  (forall a, Get d p = VArr a -> (len a < two63 - two31)%Z) ->
+  project_slice st d o p v = Err \/ exists st', project_slice st d o p v = Ok st'.
+Proof. exact slice_total. Qed.
+Print Assumptions C14_slice_total.
+
+(* ... and neither does Project as a whole, given a matcher that does not *)
+Theorem C14_project_never_panics : forall matchf,
+  (forall x y, matchf x y <> Panic) ->
+  forall d, (forall p a, Get d p = VArr a -> (len a < two63 - two31)%Z) ->
+  forall pr, wf (VDoc pr) = true -> project_with matchf d pr <> Panic.
+Proof. exact project_never_panics. Qed.
+Print Assumptions C14_project_never_panics.
 
 (* $elemMatch: the first element for which the condition holds ... *)
 Theorem C14_elem_match_spec_found : forall matchf d pre post p q a pa item pb r,
@@ -145,24 +165,18 @@ Theorem C14_elem_match_spec_none : forall matchf d pre post p q a r,
 Proof. exact elem_match_spec_none. Qed.
 Print Assumptions C14_elem_match_spec_none.
 
-(* projecting never alters the stored document: FALSE of the faithful model
-   (project_src: result and source after the call) — the colliding-paths
-   write-through; the witness is the finding ... *)
-Theorem C14_project_pure_refuted : forall matchf,
-  exists d pr r s, project_src_with matchf d pr = Ok (r, s) /\ s <> d.
-Proof. exact project_pure_refuted. Qed.
-Print Assumptions C14_project_pure_refuted.
+(* projecting never alters the source document (project_src: result and
+   source after the call; every stored value is a private copy since /repo
+   878ebea — the refutation that stood here before is the history lemma
+   write_through_before_878ebea in Proofs/ProjectProofs.v) ... *)
+Theorem C14_project_pure : forall matchf d pr r s,
+  project_src_with matchf d pr = Ok (r, s) -> s = d.
+Proof. exact project_pure. Qed.
+Print Assumptions C14_project_pure.
 
-(* ... and true without colliding paths (no included path, nor _id, is a
-   proper prefix of a $slice/$elemMatch path) *)
-Theorem C14_project_pure_partial : forall matchf d pr r s,
-  no_colliding_paths pr -> project_src_with matchf d pr = Ok (r, s) -> s = d.
-Proof. exact project_pure_partial. Qed.
-Print Assumptions C14_project_pure_partial.
-
-(* ... and then a later projection gives the same result *)
+(* ... nor later results *)
 Theorem C14_project_later_results : forall matchf d pr r s,
-  no_colliding_paths pr -> project_src_with matchf d pr = Ok (r, s) -> project_with matchf s pr = Ok r.
+  project_src_with matchf d pr = Ok (r, s) -> project_with matchf s pr = Ok r.
 Proof. exact project_later_results. Qed.
 Print Assumptions C14_project_later_results.
 
@@ -171,6 +185,13 @@ Theorem C14_project_src_result : forall matchf d pr r s,
   project_src_with matchf d pr = Ok (r, s) -> project_with matchf d pr = Ok r.
 Proof. exact project_src_result. Qed.
 Print Assumptions C14_project_src_result.
+
+(* the matcher instance: Match {item: e} (elem_query q) is Match.v's model of
+   the call projectElemMatch makes, Process(ctx, {item: e}, q, "item", false) *)
+Theorem C14_elem_match_call : forall item q,
+  elem_matches Match.Match item q = Match.process_nr Match.eval_op q [("item", item)] "item".
+Proof. exact elem_matches_process_nr. Qed.
+Print Assumptions C14_elem_match_call.
 
 (* the model's operator table and Process calls are those of /repo's project.go *)
 Theorem C14_source_operator_table : gen_projection_operators = model_operator_table.
@@ -240,29 +261,33 @@ Example C14_slice_example :
   window_skip_limit (-2) 1 a = [VInt32 2].
 Proof. vm_compute. repeat split. Qed.
 
-(* $elemMatch with a concrete matcher: "item.q equals the number given" *)
-Definition ex_match (d q : doc) : res bool :=
-  match q with
-  | [(k, v)] => Ok (value_eqb (Get d k) v)
-  | _ => Err
-  end.
+(* arguments that used to panic are ordinary now: MinInt64, [1, MaxInt64],
+   +Inf; NaN is an error *)
+Example C14_slice_clamp_example :
+  project_slice_int (VInt64 (-9223372036854775808)) = Some (-2147483647)%Z /\
+  project_slice_int (VDouble 9218868437227405312) = Some 2147483647%Z /\
+  project_slice_int (VDouble 9221120237041090560) = None /\
+  Project ex_doc [("a.b", VDoc [("$slice", VInt64 (-9223372036854775808))])] = Ok ex_doc /\
+  Project ex_doc [("w", VInt32 0); ("a.b", VDoc [("$slice", VArr [VInt32 1; VInt64 9223372036854775807])])] =
+    Ok [("_id", VInt32 7); ("a", VDoc [("b", VArr [VInt32 2; VInt32 3]); ("c", VInt32 5)]);
+        ("z", VArr [VDoc [("q", VInt32 1)]; VDoc [("q", VInt32 2)]])] /\
+  Project ex_doc [("a.b", VDoc [("$slice", VDouble 9221120237041090560)])] = Err.
+Proof. vm_compute. repeat split. Qed.
 
+(* $elemMatch with the real matcher *)
 Example C14_elem_match_example :
-  project_with ex_match ex_doc [("z", VDoc [("$elemMatch", VDoc [("q", VInt32 2)])])] =
+  Project ex_doc [("z", VDoc [("$elemMatch", VDoc [("q", VDoc [("$gte", VInt32 2)])])])] =
     Ok [("_id", VInt32 7); ("z", VArr [VDoc [("q", VInt32 2)]])] /\
-  elem_matches ex_match (VDoc [("q", VInt32 1)]) [("q", VInt32 2)] = Ok false /\
-  elem_matches ex_match (VDoc [("q", VInt32 2)]) [("q", VInt32 2)] = Ok true /\
-  project_with ex_match ex_doc [("z", VDoc [("$elemMatch", VDoc [("q", VInt32 9)])])] =
-    Ok [("_id", VInt32 7)].
+  elem_matches Match.Match (VDoc [("q", VInt32 1)]) [("q", VDoc [("$gte", VInt32 2)])] = Ok false /\
+  elem_matches Match.Match (VDoc [("q", VInt32 2)]) [("q", VDoc [("$gte", VInt32 2)])] = Ok true /\
+  Project ex_doc [("z", VDoc [("$elemMatch", VDoc [("q", VInt32 9)])])] = Ok [("_id", VInt32 7)] /\
+  (* the operator form: the element itself *)
+  Project ex_doc [("a.b", VDoc [("$elemMatch", VDoc [("$gt", VInt32 1)])])] =
+    Ok [("_id", VInt32 7); ("a", VDoc [("b", VArr [VInt32 2])])].
 Proof. vm_compute. repeat split. Qed.
 
-(* the colliding-paths witness, and a non-colliding projection with operators *)
+(* the former colliding-paths witness: the source stays as it is *)
 Example C14_pure_example :
-  colliding_paths wt_projection = true /\
   project_src wt_doc wt_projection =
-    Ok ([("_id", VInt32 7); ("a", VDoc [("b", VArr [VInt32 1]); ("c", VInt32 5)])],
-        [("_id", VInt32 7); ("a", VDoc [("b", VArr [VInt32 1]); ("c", VInt32 5)])]) /\
-  no_colliding_paths [("w", VInt32 1); ("a.b", VDoc [("$slice", VInt32 1)])] /\
-  project_src ex_doc [("w", VInt32 1); ("a.b", VDoc [("$slice", VInt32 1)])] =
-    Ok ([("_id", VInt32 7); ("w", VString "x"); ("a", VDoc [("b", VArr [VInt32 1])])], ex_doc).
-Proof. vm_compute. repeat split. Qed.
+    Ok ([("_id", VInt32 7); ("a", VDoc [("b", VArr [VInt32 1]); ("c", VInt32 5)])], wt_doc).
+Proof. vm_compute. reflexivity. Qed.
